@@ -28,7 +28,7 @@ type hProvider struct {
 	failAt   int           // Run fails after this many items were put (-1: never)
 	items    int           // items to deliver in Run mode
 	runDone  bool
-	stuck    bool          // Run ignores ctx? never (kept false)
+	failed   bool // Run actually returned runErr
 }
 
 func newHProviderFilled(m int) *hProvider {
@@ -66,6 +66,7 @@ func (p *hProvider) Run(ctx context.Context, _ core.ProviderDeps) error {
 	defer close(p.q)
 	for i := 0; i < p.items; i++ {
 		if p.failAt == i {
+			p.failed = true
 			return p.runErr
 		}
 		select {
@@ -75,6 +76,7 @@ func (p *hProvider) Run(ctx context.Context, _ core.ProviderDeps) error {
 		}
 	}
 	if p.failAt == p.items {
+		p.failed = true
 		return p.runErr
 	}
 	return nil
